@@ -131,6 +131,7 @@ pub mod nix { pub mod unistd {
     use crate::*;
     use crate::vpath::PathBuf;
     verus! {
+    #[derive(Debug)]
     pub struct NixError { pub x: u8 }
     #[verifier::external]
     impl std::fmt::Display for NixError { fn fmt(&self, f: &mut std::fmt::Formatter) -> std::fmt::Result { Ok(()) } }
@@ -183,6 +184,7 @@ pub mod nix { pub mod unistd {
 pub mod vparse {
     use vstd::prelude::*;
     verus! {
+    #[derive(Debug)]
     pub struct ParseIntError { pub x: u8 }
     pub uninterp spec fn all_digits(s: Seq<char>) -> bool;
     pub uninterp spec fn parse_u32_spec(s: Seq<char>) -> Option<u32>;
